@@ -129,6 +129,7 @@ type ContractSet struct {
 	typeInvs  map[string][]typeInv // pkgpath::TypeName -> invariants / representation clauses
 	order     []*FuncContract
 	errors    []string
+	suffixProps map[string][]string // obligation-name suffix -> additional property ids (`obligation-property`)
 	derived   map[string]derivedProp // property id -> the obligations of other properties on some instantiations
 }
 
@@ -390,6 +391,20 @@ func (cs *ContractSet) parseFile(pkgPath, filename string, lines []string, lineN
 			}
 			g.pkg = pkgPath
 			cs.ghosts[g.name] = g
+			cur, curLemma = nil, nil
+		case "obligation-property":
+			// obligation-property <name suffix>: C10, C01   - obligations whose name ends with the suffix also count for these
+			j := strings.Index(rest, ":")
+			if j < 0 {
+				cs.errors = append(cs.errors, where+": expected `obligation-property <suffix>: Cxx, ...`")
+				continue
+			}
+			if cs.suffixProps == nil {
+				cs.suffixProps = map[string][]string{}
+			}
+			for _, w := range strings.Fields(strings.ReplaceAll(rest[j+1:], ",", " ")) {
+				cs.suffixProps[strings.TrimSpace(rest[:j])] = append(cs.suffixProps[strings.TrimSpace(rest[:j])], w)
+			}
 			cur, curLemma = nil, nil
 		case "instantiation-property":
 			m := regexp.MustCompile(`^(C\d+)\s*:\s*(.*?)\s+for\s+(.*)$`).FindStringSubmatch(strings.TrimSpace(rest))
